@@ -11,7 +11,7 @@ use std::sync::OnceLock;
 
 static REGION: OnceLock<usize> = OnceLock::new();
 
-/// A real 1 MiB-aligned region of heap address space with the Compressor's side metadata mapped.
+/// Two adjacent real 1 MiB-aligned regions (`run` uses the first) of heap address space with the Compressor's side metadata mapped.
 /// The Compressor *plan* cannot be instantiated with VerifVM (it asserts a unified object-reference
 /// address model; VerifVM's references are `start + 8`), so the region is carved out of a
 /// large-object allocation of the MarkSweep instance and the two compressor tables are mapped for it
@@ -21,11 +21,11 @@ fn region() -> Address {
         let mmtk = super::inst::mmtk("MarkSweep");
         let tls = VMMutatorThread(VMThread(OpaquePointer::from_address(unsafe { Address::from_usize(0x1000) })));
         let mut mutator = mmtk::memory_manager::bind_mutator(mmtk, tls);
-        let a = mmtk::memory_manager::alloc(&mut mutator, 2 * hook::REGION_BYTES, 8, 0, mmtk::AllocationSemantics::Los);
+        let a = mmtk::memory_manager::alloc(&mut mutator, 3 * hook::REGION_BYTES, 8, 0, mmtk::AllocationSemantics::Los);
         assert!(!a.is_zero());
         std::mem::forget(mutator);
         let r = (a.as_usize() + hook::REGION_BYTES - 1) & !(hook::REGION_BYTES - 1);
-        hook::map_metadata(unsafe { Address::from_usize(r) }, hook::REGION_BYTES);
+        hook::map_metadata(unsafe { Address::from_usize(r) }, 2 * hook::REGION_BYTES);
         r
     });
     unsafe { Address::from_usize(r) }
@@ -39,7 +39,54 @@ fn list(xs: &[usize]) -> String {
     }
 }
 
+/// `xducer run2 <nA> <sA nA>… <cursor_blocks_B> <nB> <sB nB>…`: region A is FULL (cursor = A.end),
+/// region B is the address-adjacent next region; B's offset vector is calculated first, then A's
+/// (the order two workers may run the per-region packets in), then every object start of both
+/// regions is forwarded. Output `fwdA=… fwdB=…`, each relative to its own region start.
+fn run2(args: &[&str]) -> String {
+    let n: Vec<usize> = args.iter().map(|s| unum(s)).collect();
+    let words = hook::REGION_BYTES / 8;
+    let mut i = 0;
+    let mut take = |cnt: usize, i: &mut usize| -> Option<Vec<(usize, usize)>> {
+        if n.len() < *i + 2 * cnt { return None; }
+        let v = (0..cnt).map(|k| (n[*i + 2 * k], n[*i + 2 * k + 1])).collect();
+        *i += 2 * cnt;
+        Some(v)
+    };
+    if n.is_empty() { return "bad-op".to_string(); }
+    let na = n[0]; i += 1;
+    let Some(a) = take(na, &mut i) else { return "bad-op".to_string() };
+    if n.len() < i + 2 { return "bad-op".to_string(); }
+    let (cb, nb) = (n[i], n[i + 1]); i += 2;
+    let Some(b) = take(nb, &mut i) else { return "bad-op".to_string() };
+    if i != n.len() || cb * hook::BLOCK_BYTES > hook::REGION_BYTES
+        || a.iter().chain(b.iter()).any(|(s, k)| *k == 0 || s + k > words) {
+        return "bad-op".to_string();
+    }
+    let ra = region();
+    let rb = ra + hook::REGION_BYTES;
+    hook::clear(ra, 2 * hook::REGION_BYTES);
+    for (r, objs) in [(ra, &a), (rb, &b)] {
+        for (s, k) in objs.iter() {
+            hook::set_mark(r + s * 8);
+            hook::set_mark(r + (s + k - 1) * 8);
+        }
+    }
+    let fwd = hook::Fwd::<VerifVM>::new();
+    fwd.calculate_offset_vector(rb, rb + cb * hook::BLOCK_BYTES);
+    fwd.calculate_offset_vector(ra, ra + hook::REGION_BYTES);
+    let rel = |r: Address, x: Address| if x < r { "stale".to_string() } else { (x - r).to_string() };
+    let fa: Vec<String> = a.iter().map(|(s, _)| rel(ra, fwd.forward(ra + s * 8))).collect();
+    let fb: Vec<String> = b.iter().map(|(s, _)| rel(rb, fwd.forward(rb + s * 8))).collect();
+    fwd.release();
+    let strs = |v: &[String]| if v.is_empty() { "-".to_string() } else { v.join(",") };
+    format!("fwdA={} fwdB={}", strs(&fa), strs(&fb))
+}
+
 pub fn run(args: &[&str]) -> String {
+    if !args.is_empty() && args[0] == "run2" {
+        return run2(&args[1..]);
+    }
     if args.is_empty() || args[0] != "run" || args.len() < 3 {
         return "bad-op".to_string();
     }
